@@ -126,7 +126,7 @@ def instances(tier):
                 out.append(Inst(f'split_recombine[m={m},t={t},p={p if p < 1000 else '2^' + str(p.bit_length())},field={int(as_field)}]',
                                 h_prime, dict(m=m, t=t, p=p, as_field=as_field), timeout=300))
     out.append(Inst('twin_wrong_oracle', h_twin_wrong_oracle, {}, twin=True, expect='violated'))
-    ext = [(4, 2, 2), (8, 2, 3), (9, 3, 2)]
+    ext = [(4, 2, 2), (9, 3, 2)] + ([(8, 2, 3)] if tier != "quick" else [])
     if tier != 'quick':
         ext += [(16, 2, 4), (25, 5, 2), (27, 3, 3)]
     for q, char, deg in ext:
